@@ -45,16 +45,45 @@ fn check(ids: &[i32]) -> Result<(), (String, String)> {
 /// p.s = comma-separated ids
 pub fn o_rollbacks(_input: &[u8], p: &P) -> Out {
 	let mut out = Out { transitions: 2, nontrivial: true, ..Default::default() };
-	let ids: Vec<i32> = p.s.as_deref().unwrap_or("").split(',').filter(|s| !s.is_empty()).map(|s| s.parse().unwrap()).collect();
-	if let Err((k, m)) = check(&ids) {
+	let parse = |s: &str| -> Vec<i32> { s.split(',').filter(|s| !s.is_empty()).map(|s| s.parse().unwrap()).collect() };
+	let text = p.s.as_deref().unwrap_or("");
+	if let Some((a, b)) = text.split_once('|') {
+		// a call history: game A, then game B, on a thread that has made no call before
+		let (a, b) = (parse(a), parse(b));
+		let r = std::thread::spawn(move || check(&a).map_err(|(k, m)| (format!("first-call:{}", k), m)).and_then(|_| check(&b).map_err(|(k, m)| (format!("second-call:{}", k), format!("after a call on {:?}: {}", a, m))))).join();
+		match r {
+			Ok(Ok(())) => {}
+			Ok(Err((k, m))) => out.viol = crate::common::viol("rollbacks", p, &k, m),
+			Err(_) => out.viol = crate::common::viol("rollbacks", p, "thread-panicked", "the thread running the two calls panicked".into()),
+		}
+		return out;
+	}
+	if let Err((k, m)) = check(&parse(text)) {
 		out.viol = crate::common::viol("rollbacks", p, &k, m);
+	}
+	out
+}
+
+fn seqs_upto(al: &[i32], l: usize) -> Vec<Vec<i32>> {
+	let mut out: Vec<Vec<i32>> = vec![vec![]];
+	let mut start = 0;
+	for _ in 0..l {
+		let end = out.len();
+		for i in start..end {
+			for x in al {
+				let mut v = out[i].clone();
+				v.push(*x);
+				out.push(v);
+			}
+		}
+		start = end;
 	}
 	out
 }
 
 pub fn run() {
 	let cx = ctx();
-	cx.note("rule", json!("ALL frame-id sequences of length 0..L over an alphabet of K ids >= -123: contiguous {-123,-122,..} gapped {-123,-100,0,5,1000,5000}, and far-apart {-123, 65413, 65414, 200000} (length <= 5); quick K=4, L<=8 (87,381 sequences per alphabet); thorough K=6, L<=9 (12,093,235 per alphabet); both modes; Frame built directly from public fields. Oracle (naive definition): marked(i) iff an earlier (keep-first) / later (keep-last) row has the same id; mask length == rows; exactly one unmarked row per distinct id. Non-trivial = the sequence has a repeated id; distinct by construction"));
+	cx.note("rule", json!("ALL frame-id sequences of length 0..L over an alphabet of K ids >= -123: contiguous {-123,-122,..} gapped {-123,-100,0,5,1000,5000}, and far-apart {-123, 65413, 65414, 200000} (length <= 5); quick K=4, L<=8 (87,381 sequences per alphabet); thorough K=6, L<=9 (12,093,235 per alphabet); both modes; Frame built directly from public fields; plus call histories: ALL ordered pairs (A, B) of sequences of length <= 3 (thorough 4) over {-123,-122,-121,1000}, A then B on a fresh thread, both masks checked. Oracle (naive definition): marked(i) iff an earlier (keep-first) / later (keep-last) row has the same id; mask length == rows; exactly one unmarked row per distinct id. Non-trivial = the sequence has a repeated id; distinct by construction"));
 	cx.note("exhaustive", json!(true));
 	cx.note("assumptions", json!(["ids >= -123 as the property states; sequences longer than L and alphabets larger than K are not enumerated"]));
 	let (k, l) = if cx.quick() { (4usize, 8usize) } else { (6, 9) };
@@ -77,7 +106,13 @@ pub fn run() {
 		}
 	}
 	let alph = alphabets.clone();
-	par_each(shards.into_iter(), move |(ai, len, a, b), local| {
+	par_each(shards.into_iter(), move |shard, local| {
+		// every shard on a thread of its own: what the thread has called before is then the shard's own,
+		// fixed sequence of games (and not whichever shards the worker happened to pick up)
+		let alph = &alph;
+		in_fresh_thread(move || shard_body(alph, k, shard, local));
+	});
+	fn shard_body(alph: &Vec<Vec<i32>>, k: usize, (ai, len, a, b): (usize, usize, usize, usize), local: &mut Local) {
 		let al = &alph[ai];
 		let free = if len < 2 { len } else { len - 2 };
 		let k = al.len();
@@ -113,12 +148,26 @@ pub fn run() {
 			}
 			local.states.insert(fnv_mix(len as u64, sorted.len() as u64));
 			local.outcomes.insert(fnv_mix(len as u64, (ids.len() - sorted.len()) as u64));
-			if check(&ids).is_err() {
+			if let Err((_, first)) = check(&ids) {
 				let s: Vec<String> = ids.iter().map(|i| i.to_string()).collect();
 				let p = P { class: "sequence", s: Some(Arc::from(s.join(",").as_str())), ..Default::default() };
 				let empty = Arc::new(vec![]);
-				eval_case("rollbacks", o_rollbacks, &empty, &p, || format!("ids {:?}", ids), local);
+				eval_flagged("rollbacks", o_rollbacks, &empty, &p, || format!("ids {:?}", ids), first, local);
 			}
+		}
+	}
+	// call histories: ALL ordered pairs of sequences of length <= 3 (thorough: 4) over {-123,-122,-121,1000},
+	// each pair on a fresh thread - the mask of a game must not depend on the game looked at before
+	let hl = if cx.quick() { 3 } else { 4 };
+	let hs = Arc::new(seqs_upto(&[-123, -122, -121, 1000], hl));
+	let hs2 = hs.clone();
+	par_each(0..hs.len(), move |i, local| {
+		let fmt = |v: &Vec<i32>| v.iter().map(|x| x.to_string()).collect::<Vec<_>>().join(",");
+		for b in hs2.iter() {
+			let p = P { class: "history", s: Some(Arc::from(format!("{}|{}", fmt(&hs2[i]), fmt(b)).as_str())), ..Default::default() };
+			let empty = Arc::new(vec![]);
+			let a = &hs2[i];
+			eval_case("rollbacks", o_rollbacks, &empty, &p, || format!("ids {:?} then ids {:?}", a, b), local);
 		}
 	});
 	cx.sample(json!({"ids": [-123, -122, -122, -121, -122], "keep_first": [false, false, true, false, true], "keep_last": [false, true, true, false, false]}));
